@@ -19,6 +19,14 @@ def _validate(trace):
     return m.group(1), int(m.group(2)) + int(m.group(3)), m.group(4) == "TRUE"
 
 
+def _validate_rpc(trace):
+    r = common.tlc("concurrency", "TraceRpcRate", cfg="TraceRpcRate.cfg", workers=1, timeout=600, env_extra={"TRACE": trace}, xss="1g", xmx="4g")
+    m = re.search(r'<<\s*"VERDICT",\s*"([^"]*)",\s*(\d+),\s*(-?\d+),\s*(-?\d+),\s*(-?\d+),\s*(-?\d+)\s*>>', r.out)
+    if not m:
+        raise common.ToolError("TraceRpcRate produced no verdict:\n" + r.out[-1500:])
+    return m.group(1), int(m.group(2)), max(int(m.group(5)), int(m.group(6)))
+
+
 def run(tier, seed):
     t0 = time.time()
     common.cargo_build()
@@ -29,6 +37,7 @@ def run(tier, seed):
     plan = [(24, 2), (24, 3), (30, 1), (16, 5)]
     nseeds = 6 if tier == "quick" else 60
     traces, grants, comparable, samples, viol = 0, 0, 0, [], 0
+    rpc_traces, rpc_starts, rpc_saturated, rpc_samples = 0, 0, 0, []
     try:
         for (ncalls, burst) in plan:
             for k in range(nseeds):
@@ -52,6 +61,34 @@ def run(tier, seed):
                     path = common.write_replay(PROP, "trace_violation", {"property": PROP, "seed": s, "ncalls": ncalls, "burst": burst, "refresh": refresh,
                                                                          "what": verdict, "trace": trace})
                     raise common.Violation(PROP, verdict, path)
+        # ---- part (b): the real rpc::Service over one connection against remote sides that call as fast as they can
+        for mode in ["hammer", "raw", "greedy"]:
+            for k in range(3 if tier == "quick" else 20):
+                for burst in ([1, 2, 5] if tier == "quick" else [1, 2, 3, 5, 10]):
+                    s = seed * 1000 + k
+                    refresh = [10_000_000, 7_000_003][k % 2]
+                    trace = os.path.join(d, f"rpc_{mode}_{burst}_{s}.ndjson")
+                    rep = os.path.join(d, f"rpc_{mode}_{burst}_{s}.json")
+                    steps = 40 if tier == "quick" else 120
+                    rc, so, se = common.run_bin("rpc_drv", [trace, rep, s, burst, refresh, mode, steps], timeout=600)
+                    if rc != 0 and not os.path.exists(rep):
+                        raise common.ToolError("rpc_drv failed: " + se[-800:])
+                    r = common.load_report(rep)
+                    common.handle_failures(PROP, r["failures"], "rpc_driver_failure")
+                    verdict, nstarts, tight = _validate_rpc(trace)
+                    rpc_traces += 1
+                    rpc_starts += nstarts
+                    if mode != "greedy":
+                        rpc_saturated += 1 if tight >= 0 else 0
+                    if tight > 0:
+                        log(f"NOTE drift component=rpc_rate handler starts exceed the bound on limiter grants by {tight} (allowed up to INFLIGHT) in {trace}")
+                    if len(rpc_samples) < 3 and k == 0 and burst == 2:
+                        rpc_samples.append({"run": r["samples"][0], "counters": r["counters"]})
+                    if verdict != "ok":
+                        viol = 1
+                        path = common.write_replay(PROP, "rpc_trace_violation", {"property": PROP, "kind": "rpc", "seed": s, "burst": burst, "refresh": refresh,
+                                                                                 "mode": mode, "steps": steps, "what": verdict, "trace": trace})
+                        raise common.Violation(PROP, verdict, path)
     finally:
         cov = {"states": m.distinct, "transitions": m.generated, "traces_validated_against_impl": traces, "samples": samples or [{}],
                "evaluations": grants, "distinct_nontrivial": traces,
@@ -59,11 +96,18 @@ def run(tier, seed):
                        "executed twice (with/without cancelled calls); evaluations = grants checked; CancelNeutral is evaluated on the "
                        f"{comparable} scripts in which every cancellable call was really cancelled",
                "exhaustive": True, "scripts_with_cancel_comparison": comparable,
-               "not_covered": "per-connection / per-RPC enforcement (rpc::Service over mux, INFLIGHT) — no harness for the RPC layer was built"}
+               "rpc": {"connections": rpc_traces, "handler_starts_checked": rpc_starts, "runs_where_the_rate_limit_was_saturated": rpc_saturated,
+                       "samples": rpc_samples,
+                       "rule": "part (b): the real rpc::Service (ping INFLIGHT 1, consensus INFLIGHT 3, one Rate) over the scripted transport on a ManualClock; remote = "
+                               "real clients without client-side rate (hammer), a raw mux peer that pre-answers every OPEN (raw), the same claiming 1000 streams and "
+                               "using stream ids beyond the limits (greedy); TraceRpcRate.tla: starts in any window <= b + T/r + 1 + INFLIGHT, concurrent <= INFLIGHT"}}
         common.write_evidence(PROP, tier, seed, "model_checking", cov,
                               ["time = ManualClock; clock advances are fractions and multiples of the refresh period",
-                               "part (b) of the property (RPC streams) is claimed only through the limiter it is built on"], time.time() - t0, viol)
-    log(f"[C15] ok: model {m.distinct} states; {traces} scripts, {grants} grants checked, {comparable} cancel comparisons")
+                               "part (b): two RPC kinds (ping, consensus) stand for all; the bound on handler starts carries an additive INFLIGHT term "
+                               "(grants whose handler had not started yet)"], time.time() - t0, viol)
+    if rpc_saturated == 0:
+        raise common.ToolError("no RPC run saturated the rate limit: part (b) was not exercised")
+    log(f"[C15] ok: model {m.distinct} states; {traces} scripts, {grants} grants checked, {comparable} cancel comparisons; rpc: {rpc_traces} connections, {rpc_starts} handler starts, {rpc_saturated} saturated")
     return 0
 
 
@@ -74,6 +118,13 @@ def replay(path, seed):
     d = common.outdir(PROP)
     trace = os.path.join(d, "replay.ndjson")
     rep = os.path.join(d, "replay.json")
+    if c.get("kind") == "rpc":
+        common.run_bin("rpc_drv", [trace, rep, c["seed"], c["burst"], c["refresh"], c["mode"], c["steps"]])
+        verdict, n, tight = _validate_rpc(trace)
+        if verdict != "ok":
+            raise common.Violation(PROP, verdict, path)
+        log("replay: no violation")
+        return 0
     common.run_bin("limiter_drv", [trace, rep, c["seed"], c["ncalls"], c["burst"], c["refresh"]])
     verdict, ng, comp = _validate(trace)
     if verdict != "ok":
